@@ -388,7 +388,7 @@ def rule_flg1(A: Analysis, rep):
     vals = sorted(A.xtext(d.value, rm) for d in defs)
     okc = len(vals) == 2 and "None" in vals and any(v.endswith(".git.rev_parse(args.at_least if args.at_least is not None else 'HEAD')") for v in vals)
     rep.check(okc, "FLG1", "commit = rev-parse(at_least | HEAD)", rm.node, "", "`commit` is derived as %s" % vals)
-    raises = {A.exc.exc_class(n.ast.exc).rsplit(".", 1)[1]: n for n in g.nodes if n.kind == "stmt" and isinstance(n.ast, ast.Raise) and n.ast.exc is not None and A.exc.exc_class(n.ast.exc)}
+    raises = {A.exc.exc_class(n.ast.exc).rsplit(".", 1)[-1]: n for n in g.nodes if n.kind == "stmt" and isinstance(n.ast, ast.Raise) and n.ast.exc is not None and A.exc.exc_class(n.ast.exc)}
     ok = False
     if "AtLeastCommitNotAncestor" in raises:
         gs = A.path_guards(g, g.entry, raises["AtLeastCommitNotAncestor"], rm)
